@@ -248,6 +248,11 @@ func runC03(ctx *Ctx) {
 // C07: accrual and withdrawals; fee/minimum around the balance; failing settlements; repeats;
 // racing withdrawals of one wallet.
 func runC07(ctx *Ctx) {
+	for c := 0; c < ctx.N(6, 60); c++ {
+		if ctx.Want(900000 + c) {
+			contractCase(ctx, 900000+c, ctx.Sub(900000+c), "failed-settlement", "c07-")
+		}
+	}
 	n := ctx.N(200, 5000)
 	forEachCase(ctx, n, func(i int, rng *rand.Rand) {
 		drv := i % 2
